@@ -170,54 +170,38 @@ func runBatchExtra(raw json.RawMessage, seed int64) (res Result) {
 		pks, sigs, want := w.batchInputs(classes, true)
 		w.checkBatch(&res, fmt.Sprintf("n=%d classes %v seed %d", n, classes, seed), pks, sigs, want, 2)
 	}
-	// a large batch with disjoint cancelling pairs at many index distances: random coefficients that repeat with any of
-	// these periods (e.g. a seed buffer tiled to save entropy) make a pair cancel
+	// batches whose ONLY invalid entries are one cancelling pair s_i+d / s_j-d at index distance `dist`: if the random
+	// coefficients repeat with that period (e.g. a seed buffer tiled to save entropy) the root of the tree verifies
+	// and both are reported valid.  (Other invalid leaves would force the descent that separates the pair.)
 	{
-		dists := []int{1, 2, 3, 7, 8, 16, 32, 64, 100, 128, 255, 256, 257, 512, 1024}
-		n := 2200
-		classes := make([]string, n)
-		for i := range classes {
-			classes[i] = "ok"
-		}
-		pks, sigs, want := w.batchInputs(classes[:1], false) // H, helpers
-		_ = pks
-		_ = sigs
-		_ = want
-		pk := make([]crypto.PublicKey, n)
-		sg := make([]crypto.Signature, n)
-		wt := make([]bool, n)
-		// few distinct keys (scalar multiplications by the reference are the cost): 16 keys reused round-robin
 		var ks []crypto.PublicKey
 		var ps []ref.G1
-		for k := 0; k < 16; k++ {
+		for k := 0; k < 8; k++ { // few distinct keys: reference scalar multiplications are the cost
 			sc := w.Scalar(fmt.Sprintf("big%d", k))
 			ks = append(ks, w.SK(sc).PublicKey())
 			ps = append(ps, H.Mul(sc))
 		}
-		for i := 0; i < n; i++ {
-			pk[i], sg[i], wt[i] = ks[i%16], ps[i%16].Compress(), true
-		}
 		d := w.D()
-		used := map[int]bool{}
-		pos := 0
-		for _, dist := range dists {
-			for used[pos] || used[pos+dist] || pos+dist >= n {
-				pos++
+		for _, dist := range []int{1, 2, 3, 7, 8, 16, 32, 64, 100, 128, 255, 256, 257, 512, 1024} {
+			n := dist + 2 + w.Rng.Intn(3)
+			i := w.Rng.Intn(n - dist)
+			j := i + dist
+			pk := make([]crypto.PublicKey, n)
+			sg := make([]crypto.Signature, n)
+			for x := 0; x < n; x++ {
+				pk[x], sg[x] = ks[x%8], ps[x%8].Compress()
 			}
-			i, j := pos, pos+dist
-			used[i], used[j] = true, true
-			sg[i], sg[j] = ps[i%16].Add(d).Compress(), ps[j%16].Add(d.Neg()).Compress()
-			wt[i], wt[j] = false, false
-		}
-		got, err := crypto.BatchVerifyBLSSignaturesOneMessage(pk, sg, m.Data, h)
-		res.Evals++
-		if err != nil || len(got) != n {
-			res.Violations = append(res.Violations, Violation{"C03", "AgreesWithVerify", fmt.Sprintf("large batch: (%d results, %v)", len(got), err)})
-		} else {
-			for i := range wt {
-				if got[i] != wt[i] {
+			sg[i], sg[j] = ps[i%8].Add(d).Compress(), ps[j%8].Add(d.Neg()).Compress()
+			got, err := crypto.BatchVerifyBLSSignaturesOneMessage(pk, sg, m.Data, h)
+			res.Evals++
+			if err != nil || len(got) != n {
+				res.Violations = append(res.Violations, Violation{"C03", "AgreesWithVerify", fmt.Sprintf("batch of %d: (%d results, %v)", n, len(got), err)})
+				continue
+			}
+			for x := range got {
+				if got[x] != (x != i && x != j) {
 					res.Violations = append(res.Violations, Violation{"C03", "AgreesWithVerify",
-						fmt.Sprintf("batch of %d with cancelling pairs s_i+d / s_j-d at distances %v: index %d is %v, individual verification gives %v [seed %d]", n, dists, i, got[i], wt[i], seed)})
+						fmt.Sprintf("batch of %d whose only invalid entries are s_%d+d and s_%d-d: index %d is reported %v [seed %d]", n, i, j, x, got[x], seed)})
 					break
 				}
 			}
